@@ -28,15 +28,18 @@ func NewRelay(ctx context.Context, in, out ITracer, transformer Transformer) {
 	ch := in.Subscribe()
 	handle := out.RegisterSender()
 	go func() {
+		// a closed Done channel is always ready: disable the case once it
+		// fired, otherwise this loop spins until `in` is done
+		ctxDone := ctx.Done()
 		for {
 			select {
 			case <-in.Done():
 				handle.Done()
 				in.Unsubscribe(ch)
 				return
-			case <-ctx.Done():
+			case <-ctxDone:
 				// wait until `in` Tracer is done
-				//return
+				ctxDone = nil
 			case trace, ok := <-ch:
 				if ok {
 					traces := transformer(trace)
